@@ -28,8 +28,9 @@ META = {
             "random bytes and structure-aware mutations of valid encodings (accept/reject and decoded value identical); the "
             "stateless checks (checkATV/checkVTB/checkPopData/checkBlock) run on whatever decodes; any sanitizer report, "
             "abort, escaped exception or timeout is a violation whose replay is the input.",
-    "note": "partial by nature: sanitizers observe the compiled code, the proof covers the model. Not modelled: stateless "
-            "checks themselves (containsSplit, signature, merkle) — only run for crashes/throws; steps_linear not proved; "
+    "note": "partial by nature: sanitizers observe the compiled code, the proof covers the model. Not modelled here: the "
+            "stateless checks themselves (signature, merkle) — run for crashes/throws only; containsSplit as coded is covered "
+            "by Properties_C05 (C05_split_no_oob) and is driven here with structured hostile split descriptors under ASan; steps_linear not proved; "
             "BFI is not covered. Trusted: as C11.",
     "technique": "Coq proof (total parsers with explicit unsafe outcomes) + sanitizer-instrumented differential fuzzing",
 }
@@ -75,6 +76,12 @@ def gen_cases(ctx):
     for _ in range(8 if quick else 100):
         add("address", "type3-wire-of-standard-address",
             S.standard_address_as_type3_wire(S.address_from_pubkey(r.bytes(r.range(0, 40)))))
+    # structured split descriptors in VbkPopTx.bitcoinTransaction.tx, inside otherwise valid VTBs (checkVTB -> containsSplit)
+    for tx in S.hostile_split_txs(r, 300 if quick else 6000):
+        try:
+            add("vtb", "split-descriptor", S.py_encode(c, "vtb", S.vtb_with_btctx(g, c, tx))[0])
+        except (OverflowError, ValueError):
+            pass
     for t in S.TYPES:
         heavy = t in ("popdata", "vtb", "vbkpoptx")
         # random bytes, with plausible first bytes
